@@ -1,23 +1,26 @@
-"""C15 -- multi-tensor einsum is independent of the contraction order the cost model picks.  **Bounded.**
+"""C15 -- multi-tensor einsum is independent of the contraction order the cost model picks.
 
 Contract (from the property text): for index lists with every index occurring at most twice, the result's free indices
 are the non-repeated indices in order of first appearance across the operand lists, extents from the operands, and
 element (free...) == sum over all repeated indices of the product of the operand elements.
-The code is multilinear in 3+ operands; ATOMS (bilinear) does not apply and real 32-bit multipliers are intractable.
-Stand-in: **B01** -- every input element is a constructed single bit {0,1} (int tensors), all 2^n assignments decided
-by SAT.  Lifting to all values would need "the code computes a multilinear polynomial", which nothing here checks:
-labelled bounded, never counted as proved.  Shapes are chosen with pairwise distinct extents on distinct free indices
-(so a result whose free indices come out in pairing order has the wrong type or the wrong elements) and so that each
-pairing is the cheapest at least once; op-min on and off.
+The code is multilinear in its k >= 3 operands, so each instance is decided by a *pair* of runs (vf.multilinear_cases):
+  #tags   degree typing with concrete tags: every output element is a sum of products with exactly one factor from each
+          operand, and no control decision / address / non-ring operation sees data (obliviousness);
+  #basis  the same code evaluated in the integer ring on all tuples of basis elements at once (every operand a one-hot
+          tensor at a symbolic position) against the Einstein sum.
+A multilinear map is determined by its values on basis tuples (lemma, pen and paper), hence the clauses hold for all
+element values (floats: as polynomials, exact for integer-valued data; rounding bound not machine-checked).
+Shapes have pairwise distinct extents on distinct free indices where possible and are chosen so that different plans
+of the 3-, 4- and 5-operand cost models are the cheapest.  -DFASTOR_DONT_PERFORM_OP_MIN does not compile on this tree
+(recorded under C06), so "op-min off" is not covered.
 """
 from units.common import *
 
-LEVEL = 'other'
-LEVEL_NOTE = 'BOUNDED: element values restricted to {0,1} (exhaustive by SAT over all 2^n assignments); index patterns and extents enumerated; not a proof for all values'
+LEVEL_NOTE = 'per instance (index topology, extents, element type, ISA): multilinearity + obliviousness (TAGS run) and agreement with the Einstein sum on all basis tuples (BASIS run) => all element values; instances enumerated'
 
 NAMES = ['I_', 'J_', 'K_', 'L_', 'M_', 'N_', 'O_', 'P_']
 
-def network_case(lists, ext, cfg, tag='', fam='net'):
+def network_case(lists, ext, cfg, tag='', fam='net', ty=INT):
     """lists: list of tuples of index ids (0..7); ext: {index id: extent}."""
     occ = {}
     order = []
@@ -30,13 +33,13 @@ def network_case(lists, ext, cfg, tag='', fam='net'):
     summed = [x for x in order if occ[x] == 2]
     shapes = [tuple(ext[x] for x in l) for l in lists]
     oshape = tuple(ext[x] for x in free) or (1,)
-    bufs = [Buf('abcdefgh'[i], INT, prod(shapes[i]), 'in') for i in range(len(lists))]
-    o = Buf('o', INT, prod(oshape), 'out')
-    body = '    ' + ' '.join(town(INT, shapes[i], bufs[i].name) for i in range(len(lists)))
+    bufs = [Buf('abcdefgh'[i], ty, prod(shapes[i]), 'in', atoms=('T', i)) for i in range(len(lists))]
+    o = Buf('o', ty, prod(oshape), 'out')
+    body = '    ' + ' '.join(town(ty, shapes[i], bufs[i].name) for i in range(len(lists)))
     idx = ','.join('Index<%s>' % ','.join(NAMES[x] for x in l) for l in lists)
     args = ','.join(b.name.upper() for b in bufs)
     if free:
-        body += '\n    Tensor<int,%s> R = einsum<%s>(%s);\n    %s' % (dims(oshape), idx, args, copy_out('R', 'o', prod(oshape)))
+        body += '\n    Tensor<%s,%s> R = einsum<%s>(%s);\n    %s' % (ty.cpp, dims(oshape), idx, args, copy_out('R', 'o', prod(oshape)))
     else:
         body += '\n    o[0] = einsum<%s>(%s).toscalar();' % (idx, args)
     ens = []
@@ -50,9 +53,9 @@ def network_case(lists, ext, cfg, tag='', fam='net'):
                 e = E.inp(b, flat(sh, [env2[x] for x in l]))
                 t = e if t is None else t * e
             terms.append(t)
-        ens.append((o, flat(oshape, fa) if free else 0, E.total(terms, INT)))
-    cid = 'C15/%s/%s/%s/%s%s' % (fam, '_'.join(''.join('ijklmnop'[x] for x in l) for l in lists), 'x'.join(str(ext[x]) for x in order), cfg.tag(), tag)
-    return Case(cid, 'C15', body, bufs + [o], ens, 'SYM', cfg, b01=True)
+        ens.append((o, flat(oshape, fa) if free else 0, E.total(terms, ty)))
+    cid = 'C15/%s/%s/%s/%s/%s%s' % (fam, ty.name, '_'.join(''.join('ijklmnop'[x] for x in l) for l in lists), 'x'.join(str(ext[x]) for x in order), cfg.tag(), tag)
+    return multilinear_cases(Case(cid, 'C15', body, bufs + [o], ens, 'SYM', cfg))
 
 # topologies (index ids); free indices get pairwise distinct extents
 TOPO3 = {
@@ -69,6 +72,18 @@ TOPO4 = {
     'ring4':      [(0, 1), (1, 2), (2, 3), (3, 0)],
     'star4':      [(0, 5), (1, 5, 6), (2, 6, 7), (3, 7)],
 }
+
+# explicit (topology, extents) instances chosen so that particular plans of the 4- and 5-operand cost models are the
+# cheapest ("last three first", "operands 0,2,3 first", tail-heavy 5-chains)
+EXPLICIT = [
+    ('chain4-dec', [(0, 1), (1, 2), (2, 3), (3, 4)], {0: 6, 1: 5, 2: 4, 3: 3, 4: 2}),
+    ('chain4-inc', [(0, 1), (1, 2), (2, 3), (3, 4)], {0: 2, 1: 3, 2: 4, 3: 5, 4: 6}),
+    ('net4-a', [(3,), (1, 2, 0), (2, 3, 4), (4, 0)], {0: 3, 1: 4, 2: 3, 3: 5, 4: 5}),
+    ('net4-b', [(1, 4), (2, 4, 3), (1, 0), (3, 0)], {0: 2, 1: 2, 2: 3, 3: 6, 4: 6}),
+    ('chain5-tail', [(0, 1), (1, 2), (2, 3), (3, 4), (4, 5)], {0: 3, 1: 2, 2: 3, 3: 2, 4: 4, 5: 2}),
+    ('chain5-wide', [(0, 1), (1, 2), (2, 3), (3, 4), (4, 5)], {0: 3, 1: 3, 2: 3, 3: 3, 4: 5, 5: 3}),
+    ('chain5-uni', [(0, 1), (1, 2), (2, 3), (3, 4), (4, 5)], {0: 2, 1: 2, 2: 2, 3: 2, 4: 2, 5: 2}),
+]
 
 def ext_assignments(lists, rng, n):
     """extent maps with distinct extents on free indices and varying sizes on summed ones (so that different pairings are cheapest)."""
@@ -96,12 +111,15 @@ def cases(tier, seed):
             cfg = Cfg(isa, macros=macros)
             for name, lists in TOPO3.items():
                 for e in ext_assignments(lists, rng, 2 if not thorough else 4):
-                    out.append(network_case(lists, e, cfg, fam=name))
+                    out += network_case(lists, e, cfg, fam=name, ty=rng.choice([INT, DBL, FLT]))
             if thorough or isa == 'sse2':
                 for name, lists in TOPO4.items():
                     for e in ext_assignments(lists, rng, 1 if not thorough else 2):
                         e = {k: min(v, 3) for k, v in e.items()}
-                        if len(set(e[x] for x in e)) >= 1: out.append(network_case(lists, e, cfg, fam=name))
+                        if len(set(e[x] for x in e)) >= 1: out += network_case(lists, e, cfg, fam=name, ty=rng.choice([INT, DBL, FLT]))
+            if thorough or isa == 'avx2':
+                for name, lists, e in EXPLICIT:
+                    out += network_case(lists, e, cfg, fam=name, ty=rng.choice([INT, DBL, FLT]))
     seen = set(); res = []
     for c in out:
         if c.cid not in seen: seen.add(c.cid); res.append(c)
